@@ -838,6 +838,12 @@ int reb_integrator_whfast_init(struct reb_simulation* const r){
     if (ri_whfast->kernel == REB_WHFAST_KERNEL_MODIFIEDKICK || ri_whfast->kernel == REB_WHFAST_KERNEL_LAZY){ 
         r->gravity = REB_GRAVITY_JACOBI;
     }else{
+        // A gravity routine left behind by a previously used integrator (SABA correctors and the
+        // modifiedkick/lazy kernels force JACOBI, TRACE and MERCURIUS install their own) is not valid here.
+        if (r->gravity==REB_GRAVITY_TRACE || r->gravity==REB_GRAVITY_MERCURIUS ||
+                (r->gravity==REB_GRAVITY_JACOBI && ri_whfast->coordinates!=REB_WHFAST_COORDINATES_JACOBI)){
+            r->gravity = REB_GRAVITY_BASIC;
+        }
         if (ri_whfast->coordinates==REB_WHFAST_COORDINATES_JACOBI){
             r->gravity_ignore_terms = 1;
         }else if (ri_whfast->coordinates==REB_WHFAST_COORDINATES_BARYCENTRIC){
